@@ -24,7 +24,7 @@ def _date_add_sql(
         if not isinstance(value, exp.Literal):
             self.unsupported("Cannot add non literal")
 
-        if isinstance(value, exp.Neg):
+        if isinstance(value, exp.Neg) and value.this.is_number:
             kind_to_op = {"+": "-", "-": "+"}
             value = exp.Literal.string(value.this.to_py())
         else:
